@@ -220,6 +220,15 @@ func (g *gen) funcInstance(obj *types.Func, targs []types.Type) *fnInfo {
 			g.fail("%s has no body in the loaded sources", label)
 		}
 		c := &fn{g: g, pkg: fd.pkg, info: fd.pkg.TypesInfo, decl: fd.decl, obj: obj, sig: sig, sub: sub, opts: t, fi: fi}
+		defer func() {
+			// a reason without a position gets the position of the function
+			if r := recover(); r != nil {
+				if u, ok := r.(unsup); ok && !strings.Contains(u.msg, ".go:") {
+					panic(unsup{u.msg + " (in " + g.L.pos(fd.decl.Pos(), fd.pkg) + ")"})
+				}
+				panic(r)
+			}
+		}()
 		c.translate(it)
 	})
 	g.use(it)
